@@ -36,3 +36,14 @@ package datasink
 //@ props C06 C17
 //@ tag Path validate required
 //@ tag Path config path
+
+// The in-memory sink hands out itself.
+//@ func NewBuffer
+//@ props C06
+//@ modifies nothing
+//@ ensures fresh(result)
+
+//@ func (b *Buffer) OpenSink
+//@ props C06
+//@ modifies nothing
+//@ ensures err == nil && wc == box(b)
